@@ -1,10 +1,73 @@
-"""Per-property check drivers."""
+"""Per-property check drivers: design-level TLC runs, trace validation, spec -> code replay."""
 from __future__ import annotations
+
+import json
+import os
+import time
 
 import checklib
 import families
+import mc
+import tlc
+
+MGR_PROPS = {"C03": "C03_Resample", "C11": "C11_HA", "C12": "C12_Fill", "C15": "C15_Window"}
+
+
+def manager_models(pid, tier):
+    """MC_Manager: invariants of all manager properties on the bounded model, the emission of
+    every distinct state for replay, and the deviation config that must break C11"""
+    q = tier == "quick"
+    cfg = "MC_Manager_emit_quick.cfg" if q else "MC_Manager_emit.cfg"
+    consts = ("TF=3, MaxLen=%d, MaxChunk=3, Gaps={0,1,2,3,4,7}, Offsets={0,1,3}, Lifes={none,4,7}, "
+              "fill/HA on and off, 0..2 candles at construction" % (4 if q else 5))
+    st = mc.run_model("MC_Manager", "MC_Manager", cfg, consts, keep_out=True, timeout=3000)
+    states = tlc.tagged_json(st.pop("out"), "EMIT")
+    stats = [st]
+    if pid == "C11":
+        stats.append(mc.run_model("MC_Manager+HA_convindex_single_tag (must fail)", "MC_Manager",
+                                  "MC_Manager_devHA.cfg", "as MC_Manager MaxLen=5, Dev={HA_convindex_single_tag}",
+                                  expect_violation="C11_HA"))
+    return stats, states
+
+
+def replay_manager(pid, tier, states):
+    import replay_mgr
+
+    q = tier == "quick"
+    want = {"C03": lambda c: c["tf"] and not c["fill"], "C12": lambda c: c["fill"],
+            "C11": lambda c: c["ha"], "C15": lambda c: c["life"] >= 0}[pid]
+    # Heikin-Ashi together with a lifespan is schedule dependent by construction (the recurrence
+    # restarts when the predecessor of the forming bucket has been trimmed) and outside every
+    # property's quantifier: those model states have no unique expected value
+    sel = [s for s in states if want(s["cfg"]) and not (s["cfg"]["ha"] and s["cfg"]["life"] >= 0)]
+    bad = []
+    n = 0
+    for i, s in enumerate(sel):
+        via = "manager" if i % 2 == 0 else "indicator"
+        b = replay_mgr.replay_state(s, all_compositions=not q, max_chunk=3, via=via)
+        n += 1
+        if b:
+            bad.append((s, b))
+    return n, bad, sel
 
 
 def run(pid, tier, seed, rng, t0):
     scs = families.scenarios(pid, tier, rng)
-    return checklib.trace_check(pid, tier, seed, scs, t0=t0)
+    mc_stats, extra, rc_replay = [], {}, 0
+    if pid in MGR_PROPS:
+        mc_stats, states = manager_models(pid, tier)
+        n, bad, sel = replay_manager(pid, tier, states)
+        extra["spec_to_code_replayed_states"] = n
+        extra["spec_to_code_mismatches"] = len(bad)
+        extra["spec_to_code_sample"] = sel[len(sel) // 2] if sel else None
+        for k, (s, b) in enumerate(bad[:3]):
+            os.makedirs(checklib.REPLAYS, exist_ok=True)
+            path = os.path.join(checklib.REPLAYS, f"{pid}_{seed}_model_{k}.json")
+            json.dump({"property": pid, "model_state": s, "mismatch": b}, open(path, "w"))
+            print(f"VIOLATION property={pid} replay={path}")
+            print(f"  model state cfg={s['cfg']} pre={s['pre']} raw_ts={[c['ts'] for c in s['raw']]}: "
+                  f"the library's candles differ from the specification's for composition {b[0]['composition']}")
+            rc_replay = 1
+    rc = checklib.trace_check(pid, tier, seed, scs, mc_stats=mc_stats, extra_cov=extra, t0=t0,
+                              extra_violations=1 if rc_replay else 0)
+    return 1 if (rc or rc_replay) else 0
